@@ -59,7 +59,7 @@ def type_render_of_ensure_instance():
     if len(hits) != 1 or hits[0][0] not in RENDER:
         raise AnchorLost("TypeMono::ensure_instance: `args.iter().map(<ty_compact | encode_ty>).collect::<Vec<_>>().join(\"..\")` not found exactly once")
     mf = re.search(r'format!\(\s*"__\{\}",', body)
-    mn = re.search(r'TastIdent::new\(&format!\("\{\}\{\}", name, suffix\)\)', body)
+    mn = re.search(r'(?:TastIdent::new\(&|self\.free_instance_name\()format!\("\{\}\{\}", name, suffix\)\)', body)      # (since fix 42968a0 the name goes through free_instance_name: U-TMONO)
     if not mf or not mn:
         raise AnchorLost("TypeMono::ensure_instance: the suffix `__{}` / the name `{}{}` of (name, suffix) not found")
     return hits[0]
